@@ -4,7 +4,7 @@ KeyVecsC == {<<1, 2, 2, 3>>, <<2, 2, 2, 2>>, <<3, 2, 1, 1>>, <<2, 1, 2>>}
 MutC == IOEnv.MUT
 EdgeLog ==
   LET rec == [s |-> <<TLCFP(vars), TLCFP(<<vars, 1>>)>>, t |-> <<TLCFP(vars'), TLCFP(<<vars', 1>>)>>,
-              kv |-> kv, op |-> lastOp', item |-> lastItem', res |-> lastRes', order |-> ord']
+              kv |-> kv, empty |-> (ord = <<>>), op |-> lastOp', item |-> lastItem', res |-> lastRes', order |-> ord']
   IN (IOEnv.EDGES # "") =>
      Serialize(ToJson(rec) \o "\n", IOEnv.EDGES,
         [format |-> "TXT", charset |-> "UTF-8", openOptions |-> <<"WRITE", "CREATE", "APPEND">>]).exitValue = 0
